@@ -405,12 +405,78 @@ var c12Profile = &sim.Profile{
 	MinLen: 25, MaxLen: 55, Templates: append(append([]sim.Template(nil), c12Templates...), c02Templates[0], c02Templates[1], c02Templates[2]), TplProb: 0.6, NoiseProb: 0.1,
 }
 
+// c12LimitInterleaved: "at most five one-time passwords exist per account" when two browsers of the
+// same account ask for a new one at the same time: account with 3 / 4 / 5 stored, request A is suspended
+// before its i-th backend call (every i), request B runs to completion there, A carries on. Whatever the
+// two are told, storage never holds more than five afterwards.
+func c12LimitInterleaved(c *RunCtx, unit int) {
+	cfg := world.Cfg{Modules: []string{"auth", "otp", "logout"}, Mount: []string{"/auth", ""}[(unit/25)%2], JSON: (unit/50)%2 == 1}
+	w, err := world.New(cfg, "c12-limit")
+	if err != nil {
+		c.Stats.Inconclusive = append(c.Stats.Inconclusive, "world: "+err.Error())
+		return
+	}
+	pid, pw := "limit@site.test", "Lim1t!passw"
+	w.Store.Put(&world.User{PID: pid, Email: pid, Password: sim.Hash4(pw), Confirmed: true})
+	bA, bB := world.NewBrowser(1), world.NewBrowser(2)
+	for _, b := range []*world.Browser{bA, bB} {
+		if rec := w.Do(b, world.Req{Method: "POST", Path: w.P("/login"), Form: map[string]string{"email": pid, "password": pw}}); rec.SessOut["uid"] != pid {
+			c.Stats.Inconclusive = append(c.Stats.Inconclusive, "c12 limit: login failed: "+rec.HandlerErr)
+			return
+		}
+	}
+	count := func() int {
+		u := w.Store.Peek(pid)
+		if u == nil || u.OTPs == "" {
+			return 0
+		}
+		return len(strings.Split(u.OTPs, ","))
+	}
+	add := world.Req{Method: "POST", Path: w.P("/otp/add")}
+	for have := 0; have <= 5; have++ {
+		if have >= 3 {
+			base := w.SaveState()
+			for at := 0; at < 8; at++ {
+				w.LoadState(base)
+				a, b := bA.Clone(), bB.Clone()
+				w.YieldedAt = nil
+				w.Yield = map[int]func(){at: func() { w.Do(b, add) }}
+				w.Do(a, add)
+				w.Yield = nil
+				c.Stats.Evaluations++
+				if len(w.YieldedAt) == 0 {
+					break // the request makes fewer backend calls than that
+				}
+				c.Stats.Count("otp-adds-interleaved")
+				c.Stats.Sig(fmt.Sprintf("otp-limit/had=%d/second-request-before-%s#%d/now=%d", have, w.YieldedAt[0], at, count()))
+				if n := count(); n > 5 {
+					v := vio("C12", "more-than-five-otps|interleaved-adds", "account holding %d one-time passwords, two browsers ask for another at the same time (the second request ran before backend call #%d, %s, of the first): storage now holds %d", have, at, w.YieldedAt[0], n)
+					c.Stats.Violations = append(c.Stats.Violations, sim.VioRec{Violation: *v, Index: unit, Cfg: cfg.String(), History: []string{"A: POST /otp/add (suspended before backend call " + fmt.Sprint(at) + ")", "B: POST /otp/add", "A resumes"}})
+					w.LoadState(base)
+					return
+				}
+			}
+			w.LoadState(base)
+		}
+		if have < 5 {
+			w.Do(bA, add)
+			if count() != have+1 {
+				c.Stats.Inconclusive = append(c.Stats.Inconclusive, fmt.Sprintf("c12 limit: sequential add #%d did not add", have+1))
+				return
+			}
+		}
+	}
+}
+
 func init() {
 	register(&Check{
 		ID: "C12", Level: "exploration",
-		Rule:  "histories of generate/use/replay/clear/regenerate across 3-4 accounts and 3 browsers against a copying storer (a forgotten Save is visible), directed templates (OTP add x1-6/use/replay from same and other browser/clear/regenerate; recovery use/replay/regenerate; remove-and-enrol-again / add-the-other-kind followed by a code of the replaced batch; SMS code replay; same TOTP code twice; a login whose After(EventAuth) is answered by — or fails in — the application's own listener, followed by a replay) plus random walks whose candidate strings include spent, cleared, other accounts', never-issued and empty values and stored hashes. Ledger: every OTP shown by /otp/add, every recovery code seeded or shown, every SMS in the outbox, every accepted TOTP code. Oracle: an accepted value must be live in the ledger; after acceptance its stored form is gone (recovery list shrunk by exactly one, no remaining hash verifies it; OTP hash absent; sms_secret deleted by the same session write) and the Save precedes the session write that puts uid; <=5 OTPs per account after every request; with the replay-protecting user type the same TOTP code twice in a row is rejected. distinct_nontrivial = distinct (flow, value class, #OTPs held, session state, outcome, mode, replay protection) signatures.",
+		Rule:  "histories of generate/use/replay/clear/regenerate across 3-4 accounts and 3 browsers against a copying storer (a forgotten Save is visible), directed templates (OTP add x1-6/use/replay from same and other browser/clear/regenerate; recovery use/replay/regenerate; remove-and-enrol-again / add-the-other-kind followed by a code of the replaced batch; SMS code replay; same TOTP code twice; a login whose After(EventAuth) is answered by — or fails in — the application's own listener, followed by a replay) plus random walks whose candidate strings include spent, cleared, other accounts', never-issued and empty values and stored hashes. Ledger: every OTP shown by /otp/add, every recovery code seeded or shown, every SMS in the outbox, every accepted TOTP code. Oracle: an accepted value must be live in the ledger; after acceptance its stored form is gone (recovery list shrunk by exactly one, no remaining hash verifies it; OTP hash absent; sms_secret deleted by the same session write) and the Save precedes the session write that puts uid; <=5 OTPs per account after every request; with the replay-protecting user type the same TOTP code twice in a row is rejected. Plus, in every 25th unit, the limit of five under interleaving: an account holding 3/4/5 one-time passwords, request A (POST /otp/add) is suspended before each of its backend calls in turn while request B (the same, from another browser of the account) runs to completion; storage never holds more than five. distinct_nontrivial = distinct (flow, value class, #OTPs held, session state, outcome, mode, replay protection) signatures.",
 		Units: func(t string) int { return tierN(t, 500, 8000) },
 		Run: func(c *RunCtx, unit int) {
+			if unit%25 == 0 {
+				c12LimitInterleaved(c, unit)
+			}
 			r := Rng(c.Seed, "C12", unit)
 			cfg := randomCfg(r, "auth", "otp", "logout")
 			var mods []string
@@ -433,7 +499,7 @@ func init() {
 			sim.RunHistory(s, c12Profile, []sim.Monitor{&c12mon{stats: c.Stats, lastTOTP: map[string]string{}}}, c.Stats, unit)
 		},
 		Floors: func(t string) map[string]int {
-			return map[string]int{"otp-accepted": 80, "otp-replay-rejected:spent": 30, "otp-replay-rejected:dead": 5, "recovery-accepted": 40, "recovery-replay-rejected": 30, "sms-code-accepted": 30, "totp-accepted": 30, "totp-replay-rejected": 3}
+			return map[string]int{"otp-accepted": 80, "otp-replay-rejected:spent": 30, "otp-replay-rejected:dead": 5, "recovery-accepted": 40, "recovery-replay-rejected": 30, "sms-code-accepted": 30, "totp-accepted": 30, "totp-replay-rejected": 3, "otp-adds-interleaved": 50}
 		},
 		Assumptions: []string{"storage behaves like a database: every Load returns a copy, only Save persists", "an OTP presented in a request that was blocked (lock) or parked is treated as consumed-or-not at the library's discretion (state 'limbo', no demand)"},
 	})
